@@ -7,7 +7,6 @@ use crate::report::{Report, Tier, run_cases};
 use crate::rng::Rng;
 use crate::world::*;
 use serde_json::json;
-use std::sync::Arc;
 
 pub struct HistOut {
     pub world: World,
@@ -26,7 +25,7 @@ pub fn history(seed: u64, check: &str, case: u64, opts: Opts, trace: bool, max_s
         w.trace = Some(vec![]);
     }
     w.be.start_recording();
-    w.be.set_protect(Arc::new(crate::fmt::protected_ranges));
+    w.be.set_sync_hook(crate::fmt::sync_hook(false));
     let mut api_error = None;
     let mut done = 0;
     for _ in 0..steps {
@@ -119,11 +118,19 @@ fn one_case(rep: &Report, case: u64, budget: &CrashBudget, depth: u32, max_steps
     // clean close belongs to the stream too
     w.close();
     w.mark_all_durable();
-    let viol = w.be.take_violations();
+    let viol = std::mem::take(&mut w.be_violations);
     if !viol.is_empty() {
         rep.violation(
             format!("backend:{}", short_sig(&viol[0])),
             format!("case {case}: {}", viol.join("; ")),
+            replay.clone(),
+        );
+        return;
+    }
+    if let Some(e) = w.sync_errors.first() {
+        rep.violation(
+            format!("format:{}", short_sig(e)),
+            format!("case {case}: {e}; trace tail {:?}", tail(&w.trace)),
             replay.clone(),
         );
         return;
@@ -216,7 +223,10 @@ fn one_case(rep: &Report, case: u64, budget: &CrashBudget, depth: u32, max_steps
 pub fn tail(t: &Option<Vec<String>>) -> Vec<String> {
     match t {
         None => vec![],
-        Some(t) => t.iter().rev().take(25).rev().cloned().collect(),
+        Some(t) => {
+            let n = if std::env::var("RV_FULL_TRACE").is_ok() { usize::MAX } else { 25 };
+            t.iter().rev().take(n).rev().cloned().collect()
+        }
     }
 }
 
